@@ -697,7 +697,8 @@ def r11(prog, run):
                 return (False,)
             return None
         ev = cfgx.Evaluator(g, {}, custom=custom, prog=prog)
-        vals = [ev.ev(r['e']) for _, r in g.returns() if 'e' in r]
+        reach = cfgx.reachable_blocks(g, lambda f, c, st: ev.ev(c, st))          # only the returns that can be reached while the stream is not resumable
+        vals = [ev.ev(r['e']) for i, r in g.returns() if 'e' in r and g.pos(i) and g.pos(i)[0] in reach]
         if vals and all(v is False for v in vals):
             run.ok(rid, g.loc(), '%s() is false while the stream cannot be resumed' % g.name)
         else:
